@@ -224,6 +224,12 @@ def unit_backward(kind, pattern, ts_grad, nt, varying=False, alias=False):
         eff.update(bck)
         del log[:]
         after_forward[0] = True
+        rebound = None
+        if kind != "function":
+            # the user rebinds the object's tensor between the forward and the backward pass (the same module reused for
+            # another solve): the backward pass of THIS result is still the one of the tensors it was computed with
+            rebound = st.vec("theta_rebound_after_forward", (3,), (0,), requires_grad=True)
+            mod.theta = rebound
         grows = [st.vec("g%d" % k, (n,), (0,)) for k in range(nt)]
         grad_yt = Rows("grad_yt", grows)
         grad_mode = c.choose(2, "grad_mode") == 0
